@@ -11,6 +11,7 @@ package main
 import (
 	"fmt"
 	"path/filepath"
+	"sort"
 	"strings"
 
 	"github.com/TheCacophonyProject/thermal-recorder/headers"
@@ -174,9 +175,18 @@ func checkSnap(r *verifsim.Run, sc *cScenario, res *cSchedResult, compareFiles b
 		r.Violate("C16", "C16.panic", "task", "%s", res.TaskPanic)
 		return
 	}
+	nTestReq := 0
+	for qi := range res.Reqs {
+		if res.Reqs[qi].Kind == 't' && res.Reqs[qi].Err == "" {
+			nTestReq++
+		}
+	}
 	for ci := range res.Conns {
 		if res.Conns[ci].Panic != "" {
 			r.Violate("C16", "C16.panic", "frame-loop", "connection %d: the frame loop panicked while requests were being served: %s", ci, res.Conns[ci].Panic)
+			if nTestReq > 0 {
+				r.Violate("C17", "C17.test", "disturbs:panic", "connection %d: with %d test-recording requests served the frame loop panicked (a test recording must not disturb a motion recording in progress): %s", ci, nTestReq, res.Conns[ci].Panic)
+			}
 			return
 		}
 	}
@@ -226,6 +236,9 @@ func checkSnap(r *verifsim.Run, sc *cScenario, res *cSchedResult, compareFiles b
 			if q.Torn != "" {
 				r.Violate("C16", "C16.whole-frame", "mixture", "request %d of client %d (steps %d..%d) returned a frame that is a mixture of two frames: %s", qi, q.Client, q.Invoke, q.Return, q.Torn)
 				return
+			}
+			if q.Err != "" {
+				r.Probe("snapshot-refused: " + q.Err)
 			}
 			if q.Err != "" || q.Value == -1 {
 				continue
@@ -379,7 +392,68 @@ func checkSnap(r *verifsim.Run, sc *cScenario, res *cSchedResult, compareFiles b
 		}
 		if j != len(want) {
 			r.Violate("C16", "C16.pipeline", "motion", "the motion recordings differ from those of the same run without requests: got %v, expected %v", got, want)
+			if nTestReq > 0 {
+				r.Violate("C17", "C17.test", "disturbs:motion-files", "with %d test-recording requests served, the motion recordings differ from those of the same run without requests: got %v, expected %v", nTestReq, got, want)
+			}
 			return
+		}
+		// C17: every accepted test-recording request yields a file - unless it is served by a test recording
+		// already in progress. Lower bound on the number of test files: accepted requests taken in the order
+		// they returned; one counts if the frame loop went on to process 21 good frames of the same connection
+		// that all started after the request had returned, and none of them served an earlier counted request.
+		// (Skipped when the daemon's own window triggers run: their requests are not in the request log.)
+		if !res.Triggers {
+			nTestFiles := len(got) - len(want)
+			var reqs []*cRequest
+			for qi := range res.Reqs {
+				if q := &res.Reqs[qi]; q.Kind == 't' && q.Err == "" {
+					reqs = append(reqs, q)
+				}
+			}
+			sort.Slice(reqs, func(a, b int) bool { return reqs[a].Return < reqs[b].Return })
+			busyUntil, expected := -1, 0
+			for _, q := range reqs {
+				i0 := -1
+				for i := range frames {
+					if res.StartStep[i] > q.Return {
+						i0 = i
+						break
+					}
+				}
+				// the request must have reached the processor of the connection that delivered those frames: that
+				// connection had already completed a frame when the request was invoked
+				if i0 >= 0 && !(i0 > 0 && frames[i0-1].conn == frames[i0].conn && res.DoneStep[i0-1] <= q.Invoke) {
+					continue
+				}
+				if i0 < 0 || i0 <= busyUntil {
+					if i0 >= 0 {
+						busyUntil = maxInt(busyUntil, i0) // may extend nothing: served by the recording in progress
+					}
+					continue
+				}
+				good, last := 0, -1
+				for i := i0; i < len(frames) && frames[i].conn == frames[i0].conn; i++ {
+					if !frames[i].bad {
+						good++
+						if good == 21 {
+							last = i
+							break
+						}
+					}
+				}
+				if last < 0 {
+					continue // the connection ended before the recording could be completed
+				}
+				expected++
+				busyUntil = last + 1
+			}
+			if nTestFiles < expected {
+				r.Violate("C17", "C17.test", "request-lost:daemon", "%d accepted TakeTestRecording requests were each followed by 21 good frames no earlier request could have used, but only %d test recordings were made (requests %v)", expected, nTestFiles, reqSteps(reqs))
+				return
+			}
+			if expected > 0 {
+				r.Probe("test-recording-requests-accounted-for")
+			}
 		}
 		if len(want)+len(wantC) > 0 {
 			r.Probe("files-compared-with-run-without-requests")
@@ -413,6 +487,21 @@ func stripRequests(sc *cScenario) *cScenario {
 			}
 		}
 		out.Conns = append(out.Conns, &c2)
+	}
+	return out
+}
+
+func maxInt(a, b int) int {
+	if a > b {
+		return a
+	}
+	return b
+}
+
+func reqSteps(reqs []*cRequest) []int {
+	var out []int
+	for _, q := range reqs {
+		out = append(out, q.Return)
 	}
 	return out
 }
